@@ -48,6 +48,8 @@ def c16_grammars(ctx):
         rules = [dict(lhs=0, rhs=[('t', i)], prec=None, c=i, coef=[1]) for i in range(len(chunk))]
         rules.append(dict(lhs=0, rhs=[('n', 0), ('t', 0), ('n', 0)], prec=None, c=0, coef=[1, 0, 1]))
         gs.append(('lit%d' % part, dict(terms=terms, nonterms=[dict(name='e', tag='v1')], precs=[('left', [0])], rules=rules, start=0)))
+    for i in range(3 if ctx.quick else 12):
+        gs.append(('long%d' % i, genrun.fix_tags(gram.long_rule_grammar(rnd))))      # rules with 10-13 symbols: $10 .. $13 next to $1
     n = 40 if ctx.quick else 300
     for i in range(n):
         kind = i % 4
@@ -70,7 +72,11 @@ def c16_text(g, pkg, lang, rnd):
     acts = GO_ACTS if lang == 'go' else TS_ACTS
 
     def action(idx, r):
-        return rnd.choice(acts)(len(r['rhs']))
+        k = len(r['rhs'])
+        if k >= 10:
+            # every reference of a long rule, one-digit ones before the two-digit ones that start with the same digit
+            return '{ $$ = %s }' % ' + '.join('$%d' % (j + 1) for j in range(k))
+        return rnd.choice(acts)(k)
     if lang == 'go':
         head = '%{\npackage ' + pkg + '\nimport "fmt"\n%}\n%union {\n v0 int\n v1 int\n v2 int\n}\n'
         epi = GO_EPI + 'var _ = fmt.Sprint\n'
